@@ -63,7 +63,7 @@ def coq_doc(c: dict, encoding: str) -> str:
 
 
 MANIFEST = dict(
-    technique='Rocq proof (binary DMX body round trip for versions 0-5; type-code round trip; fixed-width value codecs through the shared struct model incl. the TIME codec over exact rationals with a proved binary64 rounding model; typed binary documents; KeyValues2 on the shared tokenizer model: reference decision tables, flat layout text -> tokens -> document -> graph (fix-up pass), nested layout with the full parser recursion by mutual nested induction; value strings through C05\'s exact %.6f model; KV1 bridge) + ast translator with 57 kernel-checked instance obligations + seven vm_compute correspondences (byte-exact binary, scalar codecs, KV2 flat / nested text exact, keyword predicate, value strings, KV1 bridge) + isomorphism oracle on real graphs',
+    technique='Rocq proof (binary DMX body round trip for versions 0-5; type-code round trip; fixed-width value codecs through the shared struct model incl. the TIME codec over exact rationals with a proved binary64 rounding model; typed binary documents; KeyValues2 on the shared tokenizer model: reference decision tables, flat layout text -> tokens -> document -> graph (fix-up pass), nested layout with the full parser recursion by mutual nested induction; value strings through C05\'s exact %.6f model; KV1 bridge) + ast translator with 56 kernel-checked instance obligations + seven vm_compute correspondences (byte-exact binary, scalar codecs, KV2 flat / nested text exact, keyword predicate, value strings, KV1 bridge) + isomorphism oracle on real graphs',
     text='Theorems in Props/C14.v (46; all closed under the global context): the attribute type byte decodes to the same (type, array?) pair; parse_bin (export_bin d) = d for every expressible document (versions 0-5); every fixed-width value representable in its wire type (int32, binary32 patterns, booleans, tick-exact times, colour bytes, vectors, angles in [0,360), quaternions, the 3x3 part of a matrix) is packed by the generated struct format into calcsize bytes and unpacked to the same value (Bin/Struct unpack_pack instantiated); round((k/S)*S) = k in binary64 for every 32-bit tick count, with |rn64 x - x| <= 2^-53 |x| proved for the executable rounding model, and int() instead of round() refuted by a computed witness; typed documents survive lower -> export_bin -> parse_bin -> lift; a KV2 reference decision table meeting its condition writes NULL / stub / root / inline exactly as the format needs and the two sites agree (dropping `or is_stub` refuted); the flat-layout text of any document re-tokenises (C02 quoted_embedding composed) and re-parses to the document, and linking UUID references gives back the graph (sharing, cycles, NULL, stubs) for pairwise distinct ids; the nested-layout text re-parses to the tree of inline blocks at any depth provided no inline element has an attribute type keyword as its type (refuted otherwise: the defect repaired in this round); FLOAT / vector component text denotes the value rounded half-even at 6 places, vector texts split into their components, int and colour texts parse back; to_kv1 (from_kv1 t) = t. All configurations (type codes, sizes, struct formats, TIME rounding function and scales, MATRIX slot layout, codec per string site, stub payload, KV2 escaping / codec per field, the two reference if-chains, the keyword-root rule, Tokenizer kwargs, ValueType keywords, _fmt_float and the vector / colour string converters, KV1 constants) are regenerated from dmx.py (tokenizer tables from tokenizer.py) on every run and the premises are kernel-checked as named obligations. The models are compared with the implementation on generated inputs on every run; generated graphs (DAGs, cycles, stubs, NULLs, all types, empty arrays, 3 unicode modes, versions 1-5, KV2 flat/nested/cull_uuid) are round-tripped through Element.parse and compared up to isomorphism.',
     note='Trusted: Coq kernel + vm_compute, translate/c14_dmx.py and translate/c02_tables.py, the hand models Fmt/DmxBin.v, Fmt/DmxKv1.v, Fmt/DmxScalar.v, Fmt/DmxKv2.v, Fmt/DmxKv2Nested.v, Fmt/DmxValText.v (each tied by a differential run on every run) and the shared Bin/Struct.v, Text/Tokenizer.v, Num/Dec6.v; CPython codecs / uuid (str.encode/decode and UUID text are parameters or opaque texts); binary64 arithmetic is rn64 of the exact result (no exponent range; compared with CPython float * and / on every run); a binary32 value is its bit pattern (harness converts with struct "<f"); FrozenAngle normalisation identity on [0,360) is a hypothesis checked on sampled patterns; breadth-first numbering of the object graph is done by the harness and checked by the byte-exact comparison. Not modelled (oracle only): which elements export_kv2 makes roots in the nested layout (recomputed by the harness for the text comparison; the keyword rule is an obligation + predicate correspondence) and the graph <-> block-tree step of the nested layout, float(text) / str(float) / hex / bool strings, malformed KV2 input, the DMX header line and unicode flag, format name/version. No known finding left: the round-1 finding (inline element whose type is an attribute type keyword) is repaired in the repo branch.',
 )
@@ -1324,14 +1324,27 @@ def run(ck: Ck) -> None:
                'types scalar/array/empty; names, types and strings from pools with escapes, spaces, unicode) x (binary v1-5 | KV2 '
                'flat/nested/cull_uuid) x 3 unicode modes, non-trivial = more than one element or at least one attribute, distinct by '
                'canonical graph + mode; KV1: random Keyvalues trees (depth <= 3, reserved/duplicate/case-variant names, nested roots), '
-               'in memory and through binary/KV2 files, non-trivial = block with >= 2 children; correspondence cases likewise')
-    ck.trusted.append('hand-written models Fmt/DmxBin.v, Fmt/DmxKv1.v (tied by byte-exact / structural differential runs on every run)')
-    ck.trusted.append('harness/c14_util.py canon(): breadth-first numbering of the object graph and wire bytes of fixed-width values (plain struct)')
+               'in memory and through binary/KV2 files, non-trivial = block with >= 2 children; correspondence cases likewise; '
+               'scalar codecs: values of the 11 fixed-width types (int32 bounds and beyond, binary32 patterns incl. +-0, subnormals, '
+               'infinities, tick-exact / half-tick / arbitrary times, colour bytes, matrices), distinct by type + value; KV2 text: the same '
+               'graph generator exported flat / nested (15 % with a keyword-typed element, 35 % cull_uuid), distinct by string-level document; '
+               'value strings: doubles as exact dyadics incl. sixth-place ties, vectors, blank-separated texts, decimal and malformed '
+               'integers, colour and hex texts, distinct by kind + input')
+    ck.trusted.append('hand-written models Fmt/DmxBin.v, Fmt/DmxKv1.v, Fmt/DmxScalar.v, Fmt/DmxKv2.v, Fmt/DmxKv2Nested.v, Fmt/DmxValText.v '
+                      '(each tied by a byte-/text-exact or structural differential run on every run); shared models Bin/Struct.v, '
+                      'Text/Tokenizer.v (C02), Num/Dec6.v (C05)')
+    ck.trusted.append('harness/c14_util.py canon(): breadth-first numbering of the object graph; checks/c14.py wire_bytes (plain struct, for the '
+                      'binary body correspondence), ntree_of (root selection of the nested layout recomputed for the text comparison), '
+                      'float <-> binary32 pattern conversion with struct "<f" when writing Coq literals')
     ck.assumptions += [
         'Python str.encode/bytes.decode are inverse on the strings used and produce no NUL for NUL-free text (str_ok is a premise per string)',
-        'uuid.UUID(str(u)) == u; struct pack/unpack is the identity on values representable in the wire type',
+        'uuid.UUID(str(u)) == u and str(u) is injective (the KV2 models compare UUID texts)',
+        'binary64 * and / are rn64 of the exact result at the operands of the TIME codec (no overflow / subnormals there); compared with '
+        'CPython on every run (correspondence:scalar-codecs), |rn64 x - x| <= 2^-53 |x| is proved',
+        'FrozenAngle(x, y, z) keeps components that are binary32 values in [0, 360) (run-time obligation on sampled patterns)',
         'attribute names of one element are distinct after casefold (true of every Element: _members is keyed by the casefolded name)',
-        'str.casefold fixes "name" and "subkeys" and does not map "value" to "name" (checked at run time)',
+        'str.casefold is the per-character table of the running CPython (regenerated); it fixes "name", "subkeys" and the type keywords',
+        'float(text) is the correctly rounded value of the decimal (CPython strtod); str(float) round-trips (TIME / MATRIX text): oracle only',
     ]
     from translate import c02_tables
     ok_t = ck.translate('EscTables_gen', c02_tables.translate) and ck.translate('DmxCodes_gen', c14_dmx.translate)
